@@ -1,7 +1,7 @@
-(* Correspondence definitions for C03: the builder model on the op sequences the implementation ran. *)
+(* Correspondence definitions for C03: the builder model on the call sequences the implementation ran. *)
 From Coq Require Import List NArith ZArith Bool.
 Import ListNotations.
-From GMS Require Import Base.CorrLib Range.Cut Range.C03IndexBuilder.
+From GMS Require Import Base.CorrLib Range.Cut Range.MRange Range.C03IndexBuilder Range.C03Multi.
 
 Definition cut_eqb (a b : cut) : bool :=
   match a, b with
@@ -11,8 +11,9 @@ Definition cut_eqb (a b : cut) : bool :=
   end.
 Definition rce_eqb (a b : rce) : bool := cut_eqb (lo a) (lo b) && cut_eqb (hi a) (hi b).
 
-(* ops applied to the builder, ranges observed from Ranges() *)
-Definition case : Type := (list op * list rce)%type.
-Definition ok (c : case) : bool := let '(ops, obs) := c in list_eqb rce_eqb (result (run ops)) obs.
+(* number of index columns, calls applied to the builder, ranges observed from Ranges() *)
+Definition case : Type := (nat * list bop * list range)%type.
+Definition ok (c : case) : bool :=
+  let '(k, ops, obs) := c in list_eqb (list_eqb rce_eqb) (mresult (mrun k ops)) obs.
 Definition mismatches (cs : list (N * case)) : list N :=
   map fst (filter (fun p => negb (ok (snd p))) cs).
